@@ -139,7 +139,7 @@ def run(tier, seed):
     with Driver(bins["dbg"]) as d:
         facts, _ = FX.load(d)
     ty = [{"tokens": f["tokens"]} for f in facts if FX.typeable(f["tokens"])]
-    nlit, ntrip = (300, 250) if tier == "quick" else (3000, 9000)
+    nlit, ntrip = (600, 700) if tier == "quick" else (3000, 9000)
     payloads = [{"seed": seed, "shard": i, "facts": ty[i::NCPU] if tier == "quick" else ty, "n_lit": nlit, "n_triples": ntrip, "bin": bins["dbg"], "kind": "dbg"} for i in range(NCPU)]
     acc = run_shards(shard, payloads)
     acc.counters["typeable_facts"] = len(ty)
